@@ -37,6 +37,7 @@ class Profile:
         self.trace_extra = ""        # further shim classes to log (e.g. "tr" for stat and read)
         self.keep_log = False        # keep the shim's complete event log in memory after the home is removed
         self.p_spawner_eof = 0.0     # probability per quiescent point that a spawner "dies" (EOF on its report pipe)
+        self.plan_persist = False    # apply the fault plan to every incarnation of the daemons (call indices are per process)
         self.__dict__.update(kw)
 
 
@@ -166,7 +167,7 @@ class History:
 
     def restart(self):
         self.gen_start = len(self.sim.events)
-        self.sim.start_daemons(plan="")
+        self.sim.start_daemons(plan=(self.plan or "") if self.prof.plan_persist else "")
 
     def crash_now(self, who):
         sim = self.sim
@@ -213,6 +214,14 @@ class History:
                         # an injected fault during start-up: "cannot start" is the documented answer; supervise restarts it
                         sim.kill_daemons(who=("clean",))
                         self.res.counters.inc("startup_refusals_under_fault")
+                        self.restart()
+                        continue
+                    if self.plan and self.prof.plan_persist and os.WIFEXITED(st) and os.WEXITSTATUS(st) == 0:
+                        # an injected fault on one of the daemon's pipes ("lost qmail-clean connection", "lost spawn
+                        # connection"): it dies cleanly by design; supervise restarts it
+                        sim.kill_daemons(who=("clean",))
+                        self.res.counters.inc("clean_deaths_under_fault")
+                        self.term_pending = False
                         self.restart()
                         continue
                     # the daemon may also exit because its cleaner was killed by a plan
@@ -396,3 +405,78 @@ def apply_disk_variant(sim, variant, rng):
                 f.truncate(len(view))
             os.utime(p, (st.st_atime, st.st_mtime))
             sim.emit("disk-forgot", path=os.path.relpath(p, q), kept=len(view), had=len(content))
+
+
+class RestartFaultHistory(History):
+    """Directed history (C03/C04): a two-channel message is deferred, the daemon is stopped cleanly and restarted
+    with ONE failing stat()/read()/open() during its start-up scan or later; all reports are then withheld for a
+    while (so that any second pass on the same message would overlap the first) and finally answered."""
+
+    def run(self):
+        sim, rng, p = self.sim, self.rng, self.prof
+        try:
+            self.nmsg = 1
+            body = b"Subject: m1\nX-Token: %s0001\n\nbody\n" % core.hashlib.sha256(self.label.encode()).hexdigest()[:8].encode()
+            env = b"Fs1@local.test\0Ta@local.test\0Tb@local.test\0Tc@remote.test\0\0"
+            sim.inject(body, env)
+            sim.start_daemons(plan="")
+            # first life: defer everything, then TERM
+            for _ in range(40):
+                sim.run_until_quiescent()
+                if sim.outstanding:
+                    k = sorted(sim.outstanding)[0]
+                    sim.report(sim.outstanding[k], b"Zlater\n")
+                else:
+                    break
+            self.term_pending = True
+            sim.signal("TERM")
+            try:
+                sim.run_until_quiescent()
+                raise core.Inconclusive("daemon did not exit after TERM in the directed history")
+            except qsim.DaemonExit:
+                pass
+            sim.kill_daemons(who=("clean",))
+            self.term_pending = False
+            # second life under the plan
+            self.gen_start = len(sim.events)
+            sim.start_daemons(plan=self.plan or "")
+            held = 0
+            for step in range(120):
+                try:
+                    ent = sim.run_until_quiescent()
+                except qsim.DaemonExit as e:
+                    st = e.status
+                    if os.WIFEXITED(st) and os.WEXITSTATUS(st) in (0, 111) and self.plan:
+                        sim.kill_daemons(who=("clean",))
+                        self.gen_start = len(sim.events)
+                        sim.start_daemons(plan="")
+                        continue
+                    self.res.violate("C03/daemon-died/%s" % (("sig%d" % os.WTERMSIG(st)) if os.WIFSIGNALED(st) else "exit%d" % os.WEXITSTATUS(st)),
+                                     "qmail-send ended unexpectedly; log tail %r" % sim.dlog[-300:], self.witness())
+                    return sim
+                left = {n: d for n, d in sim.scan().items() if "info" in d or "todo" in d}
+                if not left and not sim.outstanding:
+                    break
+                if sim.outstanding and held >= 4:
+                    k = sorted(sim.outstanding)[0]
+                    sim.report(sim.outstanding[k], b"Kdone\n")
+                    continue
+                if sim.outstanding:
+                    held += 1
+                # withhold the reports and let time pass (SLEEP_SYSFAIL retries, back-off times)
+                sim.advance(max(1, min(ent.get("T", 1), 400)))
+            else:
+                self.res.inconclusive.append("directed restart history %s did not drain" % self.label)
+                return sim
+            self.finished = True
+            self.term_pending = True
+            sim.signal("TERM")
+            try:
+                sim.run_until_quiescent()
+            except qsim.DaemonExit:
+                pass
+            for o in self.oracles:
+                o.at_end(sim)
+        finally:
+            self.sim.teardown()
+        return self.sim
